@@ -491,3 +491,6 @@ m('c08-r5-legacy-fast-path-in-calculator', 'C08', 'C08-R5', 'inspects:osu::perfo
 m('c10-r7-sync-only-shortcut', 'C10', 'C10-R7', '[sync]wrapper:util::sync::inner::position_from', diff='selftest/seed_diffs/C10-7.diff')
 m('c16-r8-speed-skipped-with-relax', 'C16', 'C16-R8', 'fed-alike:osu::difficulty::skills::OsuSkills::process', diff='selftest/seed_diffs/C16-7.diff')
 m('c15-r11-private-stop-flag', 'C15', 'C15-R11', 'none-from-inner:OsuGradualPerformance', diff='selftest/seed_diffs/C15-7.diff')
+m('c11-r4-owner-truncated-after-extend', 'C11', 'C11-R4', 'osu::difficulty::gradual::extend_lifetime:frozen-after-extend:osu_objects', diff='selftest/seed_diffs/C11-7.diff')
+m('c06-r3-mania-skips-stable-sort', 'C06', 'C06-R3', 'tandem-sort:every-path', diff='selftest/seed_diffs/C06-7.diff')
+m('c12-r7-state-drops-n-geki', 'C12', 'C12-R7', 'state:every-field', diff='selftest/seed_diffs/C12-7.diff')
